@@ -5,19 +5,17 @@ Helper lemmas for the exact-outcome theorems of `Props/C06.lean` (`C06_assignmen
 -/
 namespace Mesa.Cells
 
-/-- on a state satisfying the invariant `add_agent` refuses exactly when the cell has a capacity `n ≥ 1` and holds
-    exactly `n` agents (`n >= capacity` is `n == capacity`; capacity `None` and the falsy capacity 0 never refuse) -/
+/-- on a state satisfying the invariant `add_agent` refuses exactly when the cell has a capacity `n` (0 included, repair SC3)
+    and holds exactly `n` agents (`n >= capacity` is `n == capacity`; capacity `None` never refuses) -/
 theorem fullFor_iff {sp : Space} {s : State} (hi : Inv sp s) (c : Cid) :
-    fullFor sp s c = true ↔ ∃ n, sp.cap c = some n ∧ 1 ≤ n ∧ (s.occ c).length = n := by
+    fullFor sp s c = true ↔ ∃ n, sp.cap c = some n ∧ (s.occ c).length = n := by
   unfold fullFor
   cases hcap : sp.cap c with
   | none => simp
   | some n =>
-    by_cases hn : n = 0
-    · subst hn; simp
-    · have := hi.cap c n hcap hn
-      simp [hn]
-      omega
+    have := hi.cap c n hcap
+    simp
+    omega
 
 /-- the cells a draw script names, in order (`random.choice(cells)` for each draw) -/
 def drawn (cells : List Cid) (draws : List Nat) : List Cid := draws.filterMap (draw cells)
